@@ -49,6 +49,10 @@ Theorem C14_struct_method_no_source :
   count_use USource (uses d) = 0 /\ count_use UMulti (uses d) = 0.
 Proof. exact struct_method_no_source. Qed.
 
+(* variadic functions and methods are rejected (a variadic parameter cannot be fed one source value or one context) *)
+Theorem C14_variadic_rejected : forall o f, accessible f = true -> is_func f = true -> variadic f = true -> classify o f = inl EVariadic.
+Proof. intros o f A B C. unfold classify. rewrite A, B, C. reflexivity. Qed.
+
 Print Assumptions C14_classify_spec.
 Print Assumptions C14_rejected_iff.
 Print Assumptions C14_order_preserved.
@@ -58,3 +62,4 @@ Print Assumptions C14_extend_one_source.
 Print Assumptions C14_map_func_at_most_one_source.
 Print Assumptions C14_default_at_most_one_source.
 Print Assumptions C14_struct_method_no_source.
+Print Assumptions C14_variadic_rejected.
